@@ -655,7 +655,7 @@ impl Profile {
 }
 
 pub const GRID: u64 = 600;
-pub const BASE: u64 = 86400;
+pub const BASE: u64 = 86400 * 40; // 2024-02-10: dead-head trips of several days before the first activity stay inside 2024
 
 pub fn gen_instance(rng: &mut Rng, p: &Profile) -> Inst {
     let ntypes = rng.range(p.min_types, p.max_types) as usize;
